@@ -63,7 +63,7 @@ def obstruction(xstart, dx, blockers, closest):
     in_clear = (s >= eps_s) & (s <= dx2 - eps_s)
     in_maybe = (s >= -eps_s) & (s <= dx2 + eps_s)
     near_clear = d2 <= m2 + 1e-12
-    near_maybe = d2 <= m2 + 1e-7 + 1e-4 * m2
+    near_maybe = d2 <= m2 + 2e-8 + 2e-5 * m2
     if np.any(in_clear & near_clear): return 'blocked'
     if np.any(in_maybe & near_maybe): return 'ambiguous'
     return 'free'
